@@ -59,6 +59,7 @@ type prng struct {
 	s    uint64
 	dict []string
 	keys []string // the harvested strings that were map keys: generated string map keys mostly come from here
+	last string   // the pool id drawn last (see poolID)
 }
 
 func (p *prng) n(k int) int {
